@@ -22,10 +22,15 @@ decision = 401 <bhserrors code> | pass open | pass user | pass admin
 Every decision is ALSO computed by the code regenerated from the Go source (`BHS.Gen.AuthMw` through
 `BHS.Model.AuthMwWire.genAuthorize`); when the two differ the answer is `err:gen-mismatch model=… gen=…`
 (never on the unchanged tree: `BHS.Props.AuthMw.AuthMw_render`). `tok ws` cross-checks the regenerated
-`(*TokenService).GetToken` the same way.
+`(*TokenService).GetToken` the same way. The same decisions are computed a third time over the regenerated token
+store below the middleware (`BHS.Gen.TokenStore` through `BHS.Model.TokenStoreWire.genAuthorizeAt`), and the table
+after a passed `acreate` / `arevoke` and after `create` / `revoke` is compared with the regenerated
+GenerateToken / DeleteToken (`err:gen-mismatch store …`; never on the unchanged tree:
+`BHS.Props.TokenStore.driver_crosscheck`).
 -/
 import BHS.Model.Auth
 import BHS.Model.AuthMwWire
+import BHS.Model.TokenStoreWire
 import BHS.Gen.Routes
 
 namespace Driver.Ops.Auth
@@ -83,7 +88,12 @@ def kindName : Kind → String
 def decide2 (env : Env) (store : Store) (admin : Bool) (h : String) : String :=
   let m := (authorize env store admin h).render
   let g := BHS.Model.AuthMwWire.genAuthorize env store admin h
-  if m = g then m else "err:gen-mismatch model=" ++ m ++ " gen=" ++ g
+  let g2 := BHS.Model.TokenStoreWire.genAuthorizeAt env store admin h
+  if m = g && m = g2 then m else "err:gen-mismatch model=" ++ m ++ " gen=" ++ g ++ " gen-store=" ++ g2
+
+/-- the answer of a table-changing op, unless the regenerated store disagrees with the model about the table -/
+def store2 (model gen : Store) (answer : String) : String :=
+  if model = gen then answer else "err:gen-mismatch store model=" ++ toString model ++ " gen=" ++ toString gen
 
 /-- websocket handshake line, cross-checked against the regenerated `(*TokenService).GetToken` -/
 def ws2 (sys : Sys) (t : String) : String :=
@@ -101,18 +111,24 @@ def handleTok (st : S) : List String → Option (S × String)
     pure ({ sys := ⟨⟨adm, ua⟩, []⟩ }, "ok")
   | ["create", t] => do
     let t ← decodeWord t
-    pure ({ sys := { st.sys with store := insertTok st.sys.store t } }, "ok")
+    pure ({ sys := { st.sys with store := insertTok st.sys.store t } },
+      store2 (insertTok st.sys.store t) (BHS.Model.TokenStoreWire.genCreate st.sys.env.admin st.sys.store t) "ok")
   | ["revoke", t] => do
     let t ← decodeWord t
-    pure ({ sys := { st.sys with store := deleteTok st.sys.store t } }, "ok")
+    pure ({ sys := { st.sys with store := deleteTok st.sys.store t } },
+      store2 (deleteTok st.sys.store t) (BHS.Model.TokenStoreWire.genRevoke st.sys.env.admin st.sys.store t) "ok")
   | ["acreate", h, t] => do
     let h ← decodeWord h
     let t ← decodeWord t
-    pure ({ sys := step st.sys (.create h t) }, decide2 st.sys.env st.sys.store true h)
+    let s' := step st.sys (.create h t)
+    let gen := if adminPass st.sys.env h then BHS.Model.TokenStoreWire.genCreate st.sys.env.admin st.sys.store t else st.sys.store
+    pure ({ sys := s' }, store2 s'.store gen (decide2 st.sys.env st.sys.store true h))
   | ["arevoke", h, t] => do
     let h ← decodeWord h
     let t ← decodeWord t
-    pure ({ sys := step st.sys (.revoke h t) }, decide2 st.sys.env st.sys.store true h)
+    let s' := step st.sys (.revoke h t)
+    let gen := if adminPass st.sys.env h then BHS.Model.TokenStoreWire.genRevoke st.sys.env.admin st.sys.store t else st.sys.store
+    pure ({ sys := s' }, store2 s'.store gen (decide2 st.sys.env st.sys.store true h))
   | ["auth", h] => do
     let h ← decodeWord h
     pure ({ sys := step st.sys (.auth h) }, decide2 st.sys.env st.sys.store false h)
